@@ -334,7 +334,8 @@ class C10(Property):
             parts = [[n - span_a, n, strand], [0, span_b, strand]]
             if strand == -1:
                 parts.reverse()
-            self._add_gene(rng, case, "cspan", compound(parts), span_a + span_b, names, codon_ok=False)
+            # codon_start on an origin-spanning gene is accepted since the repair of _adjust_location_by_offset
+            self._add_gene(rng, case, "cspan", compound(parts), span_a + span_b, names, codon_ok=True)
         for _ in range(rng.choice([0, 0, 1, 2])):
             lo = rng.randrange(0, n - 3)
             hi = min(n, lo + rng.choice([3, 10, unit]))
